@@ -6,7 +6,7 @@ import ast
 from ..core import AnalysisError, unparse, where
 from ..cfg import CFG, suspension_may_raise, path_str, _walk_no_nested
 from ..front import ClassInfo
-from ..drv import (HID, SER, methods_of, resolve_self_call, call_sites,
+from ..drv import (DRIVER_PRIMITIVES, expand_method, HID, SER, methods_of, resolve_self_call, call_sites,
                    is_wire_write, lock_worlds, lock_events, family)
 
 TL = "transaction_lock"
@@ -68,7 +68,18 @@ def build(world):
     fns = {}
     for modname in (HID, SER):
         for (c, name, kind, fn) in methods_of(world, modname):
-            fns[(c, name)] = Fn(c, name, fn)
+            fns[(c, name)] = Fn(c, name, expand_method(world, c, fn))
+    # helpers that were inlined everywhere are not call-graph nodes
+    called = set()
+    for F in fns.values():
+        for call in call_sites(F.fn):
+            if isinstance(call.func, ast.Attribute):
+                called.add(call.func.attr)
+    for key in list(fns):
+        c, name = key
+        if name not in DRIVER_PRIMITIVES and name.startswith("_") and \
+                name not in called:
+            del fns[key]
     # callers
     callers = {}
     for key, F in fns.items():
